@@ -4,7 +4,7 @@ CONSTANTS
   BehOf <- MC_BehOf
   BadInputs = {"malformed", "control", "import_malformed"}
   DupMode = "code"
-  LimitMode = "code"
+  LimitMode = "off_by_one"
   RunnableMode = "code"
   None = None
   IntentSet = {"a1", "n1", "p1", "b1"}
@@ -18,7 +18,7 @@ CONSTANTS
   Mode = "graph"
   MaxRuns = 2
   MaxCalls = 0
-  Export = TRUE
+  Export = FALSE
 VIEW MC_View
 INVARIANTS TypeOK TicksAdvanceOnlyByCycles HistoryAppendOnly AtMostOnce LedgerIsLog DuplicateChangesNothing AcceptedIsNew RunCommitsPendingSet RunIdsFresh StartCompletionConsistent StatusFresh RefusedChangesNothing FailedRunCommitsNothing DormantNeverCommitted ReadChangesNothing ResponseCarriesStatus
 PROPERTIES Laws
